@@ -241,3 +241,194 @@ Section Gpb.
       cbn. apply HT; [intros []|]. intros i Hw. exists i'. split; [reflexivity|apply Hlv; exact Hw].
   Qed.
 End Gpb.
+
+Section Ops.
+  Variables (sfuel : nat) (cap : Z) (cnt : bool) (rf : nat).
+  Variable t : nat.
+
+  Lemma safe12_retire_ev {R} p hs es l1 (k : prog R) Q :
+    (forall k0, safe12 t k (l1, (hs ++ [(p, None, k0)], es)) Q) ->
+    safe12 t (Emit (cli "retire" [p]) k) (l1, (hs, es)) Q.
+  Proof.
+    intros Hk. cbn [Conc.safe]. intros g [a1 aE] tr (HI & HE) Hv. unfold view12, view, viewE in Hv. cbn [fst snd] in *.
+    injection Hv as Hv1 Hm Hs.
+    exists (a1, mkE (e_buf aE) (e_h aE ++ [(t, (p, None, List.length tr))]) (e_s aE)). split; [split; cbn [fst snd]|].
+    - unfold cli. rewrite tag1. apply Inv_cli_neutral; [repeat split|exact HI].
+    - unfold cli. rewrite tag1. apply InvE_retire; exact HE.
+    - split; [apply frame12; [apply frame_refl|apply frameE_snoc]|].
+      unfold view12, view, viewE. cbn [fst snd e_h e_s]. rewrite gmine_app, gmine_cons_same, Hm, Hv1, Hs. cbn. apply Hk.
+  Qed.
+
+  Definition fresh_ent (x : Z * nat) : hent := (fst x, None, snd x).
+  Definition loaded_ent (e : Z) (x : Z * nat) : hent := (fst x, Some e, snd x).
+
+  Lemma safe12_emit_retires {R} ps : forall ents es l1 (k : prog R) Q,
+    (forall ents', map fst ents' = ps -> safe12 t k (l1, (map fresh_ent (ents ++ ents'), es)) Q) ->
+    safe12 t (emit_retires ps k) (l1, (map fresh_ent ents, es)) Q.
+  Proof.
+    induction ps as [|p r IH]; intros ents es l1 k Q Hk; cbn [emit_retires].
+    - specialize (Hk [] eq_refl). rewrite app_nil_r in Hk. exact Hk.
+    - apply safe12_retire_ev. intros k0.
+      change (safe12 t (emit_retires r k) (l1, (map fresh_ent ents ++ map fresh_ent [(p, k0)], es)) Q).
+      rewrite <- map_app. apply IH. intros ents' E. rewrite <- app_assoc. apply Hk. cbn. rewrite E. reflexivity.
+  Qed.
+
+  Lemma map_set_ep e ents : map (set_ep e) (map fresh_ent ents) = map (loaded_ent e) ents.
+  Proof. induction ents as [|x r IH]; [reflexivity|]. cbn. rewrite IH. reflexivity. Qed.
+
+  Lemma safe12_push_all e ents : forall es l1 (Q : bool -> L12 -> Prop),
+    ~ holder (l_w l1) ->
+    (forall w' es', ~ holder w' -> Q true (set_w l1 w', ([], es'))) -> (forall l', Q false l') ->
+    safe12 t (push_all 2 sfuel cap cnt rf e (map fst ents)) (l1, (map (loaded_ent e) ents, es)) Q.
+  Proof.
+    induction ents as [|[p k] r IH]; intros es l1 Q Hn HT HF; cbn [push_all map fst].
+    - cbn. rewrite <- (set_w_same l1). apply HT. exact Hn.
+    - apply safe12_bind. cbn [loaded_ent fst snd].
+      apply (proj1 (safe_gpbE sfuel cap cnt t rf)); [exact Hn| |intros l'; cbv beta iota; apply HF].
+      intros w' es' Hn' _. cbv beta iota. apply IH; [exact Hn'| |exact HF].
+      intros w'' es'' Hn''. cbn [set_w]. apply HT. exact Hn''.
+  Qed.
+
+  Definition Between (s : lst) (l : L12) : Prop := IdleS s (fst l) /\ exists es, snd l = ([], es).
+
+  Lemma IdleS_set_w s l : IdleS s l -> IdleS s (set_w l WIdle).
+  Proof. intros ((H1 & H2 & H3 & H4 & H5) & H6). split; [repeat split; cbn; auto|exact H6]. Qed.
+
+  Lemma safe12_gpb_retire s ps tail l (Q : bool -> L12 -> Prop) :
+    (tail = [] \/ exists name, tail = cli name [] /\ neutral (EvCli name [])) ->
+    Between s l -> (forall l', Between s l' -> Q true l') -> (forall l', Q false l') ->
+    safe12 t (gpb_retire 2 sfuel cap cnt rf ps tail) l Q.
+  Proof.
+    intros Htail (HI & es & Hl) HT HF. destruct l as [l1 lE]. cbn [fst snd] in *. subst lE. unfold gpb_retire.
+    change (@nil hent) with (map fresh_ent []). apply safe12_emit_retires. intros ents Eps. cbn [app].
+    cbn [Conc.safe]. intros g [a1 aE] tr (HInv & HE) Hv. unfold view12, view, viewE in Hv. cbn [fst snd] in *.
+    injection Hv as Hv1 Hm Hs. unfold a_epoch_ld. cbn [fst snd vz].
+    exists (a1, mkE (e_buf aE) (gset t (g_epoch g) (e_h aE)) (e_s aE)). split; [split; cbn [fst snd]|].
+    - unfold acc. rewrite tag1. apply Inv_acc with (g := g); auto.
+    - apply InvE_load; exact HE.
+    - split; [apply frame12; [apply frame_refl|apply frameE_set]|].
+      unfold view12, view, viewE. cbn [fst snd e_h e_s]. rewrite gmine_gset_same, Hm, map_set_ep, Hv1, Hs.
+      apply safe12_bind. rewrite <- Eps.
+      assert (Hnh : ~ holder (l_w l1)) by (destruct HI as ((_ & _ & _ & _ & ->) & _); intros []).
+      apply safe12_push_all; [exact Hnh| |intros l'; cbv beta iota; apply HF].
+      intros w' es' Hn'. cbv beta iota.
+      (* the final Emit: back to the idle state *)
+      cbn [Conc.safe]. intros g2 [a2 aE2] tr2 (HInv2 & HE2) Hv2. unfold view12, view, viewE in Hv2. cbn [fst snd] in *.
+      injection Hv2 as Hv21 Hm2 Hs2.
+      exists (updA a2 t (set_w (a2 t) WIdle), aE2).
+      assert (Hres : Inv g2 (updA a2 t (set_w (a2 t) WIdle)) tr2) by (apply step_reset; [exact HInv2|rewrite Hv21; exact Hn']).
+      split; [split; cbn [fst snd]|].
+      + destruct Htail as [->|(name & -> & Hneu)].
+        * cbn. rewrite app_nil_r. exact Hres.
+        * unfold cli. rewrite tag1. apply Inv_cli_neutral; assumption.
+      + apply InvE_keep with (g := g2); auto.
+      + split; [apply frame12; [apply frame_updA|apply frameE_refl]|].
+        unfold view12, view, viewE. cbn [fst snd]. rewrite updA_same, Hv21, Hm2, Hs2. cbn [Conc.safe set_w].
+        apply HT. split; [cbn [fst]; apply (IdleS_set_w s l1); exact HI|exists es'; reflexivity].
+  Qed.
+
+  Lemma safe12_gpb_sync s l (Q : bool -> L12 -> Prop) :
+    Between s l -> (forall l', Between s l' -> Q true l') -> (forall l', Q false l') ->
+    safe12 t (gpb_sync 2 sfuel cap cnt rf) l Q.
+  Proof.
+    intros (HI & es & Hl) HT HF. destruct l as [l1 lE]. cbn [fst snd] in *. subst lE. unfold gpb_sync.
+    cbn [Conc.safe]. intros g [a1 aE] tr (HInv & HE) Hv. unfold view12, view, viewE in Hv. cbn [fst snd] in *.
+    injection Hv as Hv1 Hm Hs.
+    assert (Hw : l_w l1 = WIdle) by (destruct HI as ((_ & _ & _ & _ & X) & _); exact X).
+    set (n := List.length tr).
+    exists (updA a1 t (set_w (set_sm l1 (Some n)) (WStart n)), aE). split; [split; cbn [fst snd]|].
+    - unfold cli. rewrite tag1. eapply step_ev_begin; eauto; try reflexivity.
+      + rewrite Hv1, Hw; intros [].
+      + rewrite Hv1; reflexivity.
+      + left. rewrite Hv1. repeat split.
+    - apply InvE_keep with (g := g); auto.
+    - split; [apply frame12; [apply frame_updA|apply frameE_refl]|].
+      unfold view12, view, viewE. cbn [fst snd]. rewrite updA_same, Hm, Hs.
+      apply safe12_bind. apply (proj1 (proj2 (safe_gpbE sfuel cap cnt t rf))); [intros []| |intros l'; cbv beta iota; apply HF].
+      intros i' es' _ Hsm _. cbv beta iota. cbn [set_w].
+      assert (Hni : (n <= i')%nat) by (apply Hsm; reflexivity).
+      clearbody n. clear g a1 aE tr HInv HE Hv1 Hm Hs.
+      cbn [Conc.safe]. intros g [a1 aE] tr (HInv & HE) Hv. unfold view12, view, viewE in Hv. cbn [fst snd] in *.
+      injection Hv as Hv1 Hm Hs.
+      exists (updA a1 t (set_w (a1 t) WIdle), aE). split; [split; cbn [fst snd]|].
+      + unfold cli. rewrite tag1. eapply step_ev_sync_end with (i := n) (i' := i'); eauto; rewrite Hv1; reflexivity.
+      + apply InvE_keep with (g := g); auto.
+      + split; [apply frame12; [apply frame_updA|apply frameE_refl]|].
+        unfold view12, view, viewE. cbn [fst snd]. rewrite updA_same, Hv1, Hm, Hs. cbn [Conc.safe set_w].
+        apply HT. split; [|exists es'; reflexivity]. cbn [fst].
+        destruct HI as ((H1 & H2 & H3 & H4 & H5) & H6). split; [repeat split; cbn; auto|exact H6].
+  Qed.
+
+  Definition QB12 (s0 : lst) : option lst -> L12 -> Prop :=
+    fun r l' => match r with Some s' => Between s' l' | None => True end.
+
+  Lemma safe12_run_bop s o l : Between s l -> safe12 t (run_bop 2 sfuel cap cnt rf t s o) l (QB12 s).
+  Proof.
+    intros HB. destruct o as [o|ps]; cbn [run_bop].
+    - assert (Hcore : core_op o = true ->
+                      safe12 t (run_op 2 sfuel t s o) l (QB12 s)).
+      { intros Hc. destruct l as [l1 lE]. destruct HB as (HI & es & Hl). cbn [fst snd] in *. subst lE.
+        eapply Conc.safe_weaken; [|apply safe_lift; [apply core_run_op; exact Hc|apply safe_run_op; exact HI]].
+        intros [s'|] [l1' lE'] (HQ1 & HQ2); cbn [fst snd QB12] in *; [|exact I]. split; [exact HQ1|exists es; exact HQ2]. }
+      destruct o; try (apply Hcore; reflexivity).
+      + destruct (my_depth s) eqn:Ed; [|cbn; exact HB].
+        apply safe12_bind. apply safe12_gpb_sync with (s := s); [exact HB| |intros; exact I]. intros l' HB'. cbn. exact HB'.
+      + destruct (my_depth s) eqn:Ed; [|cbn; exact HB].
+        apply safe12_bind. apply safe12_gpb_retire with (s := s); [left; reflexivity|exact HB| |intros; exact I]. intros l' HB'. cbn. exact HB'.
+    - destruct (my_depth s) eqn:Ed; [|cbn; exact HB]. destruct ps as [|p r]; [cbn; exact HB|].
+      apply safe12_bind. apply safe12_gpb_retire with (s := s); [right; exists "batch_end"; split; [reflexivity|repeat split]|exact HB| |intros; exact I].
+      intros l' HB'. cbn. exact HB'.
+  Qed.
+
+  Lemma safe12_run_bops os : forall s l, Between s l -> safe12 t (run_bops 2 sfuel cap cnt rf t s os) l (@Conc.QTrue L12).
+  Proof.
+    induction os as [|o r IH]; intros s l HB; cbn [run_bops].
+    - apply safe12_bind. destruct l as [l1 lE]. destruct HB as (HI & es & Hl). cbn [fst snd] in *. subst lE.
+      eapply Conc.safe_weaken; [|apply safe_lift; [apply core_finish|apply safe_finish; exact HI]].
+      intros [] l' _. apply safe12_emit_neutral; [repeat split|exact I].
+    - apply safe12_bind. eapply Conc.safe_weaken; [|apply safe12_run_bop; exact HB].
+      intros [s'|] l' HQ; cbn [QB12] in HQ.
+      + apply IH; exact HQ.
+      + apply safe12_emit_neutral; [repeat split|exact I].
+  Qed.
+
+  Lemma safe12_thread os : safe12 t (bthread_prog 2 sfuel cap cnt rf t os) (l0, ([], ENone)) (@Conc.QTrue L12).
+  Proof.
+    unfold bthread_prog. apply safe12_act_plain; [plain12|]. intros _. apply safe12_run_bops.
+    split; [cbn; split; [repeat split|reflexivity]|exists ENone; reflexivity].
+  Qed.
+End Ops.
+
+Lemma binit12_ok sfuel rf cap cnt ths : Conc.cfg_ok view12 Inv12 (binit_cfg 2 sfuel rf cap cnt ths).
+Proof.
+  exists (fun _ => l0, mkE [] [] (fun _ => ENone)). split.
+  - cbn [binit_cfg Conc.shared Conc.trace]. split; cbn [fst snd].
+    + split; [|split; [|split]].
+      * constructor; cbn; try discriminate; try contradiction; auto.
+        -- intros m _. exists false. reflexivity.
+        -- intros r. repeat split; auto.
+      * constructor; cbn; try contradiction; try (intros w w' []).
+        exists false. split; [reflexivity|discriminate].
+      * constructor; cbn; [discriminate|intros; exact I].
+      * constructor; cbn; try discriminate.
+        -- intros r s (e & H & _). destruct s; discriminate.
+        -- intros w i j (e & H & _). destruct i; discriminate.
+        -- intros w p d (e & H & _). destruct d; discriminate.
+    + constructor; cbn; try contradiction; try discriminate. reflexivity.
+  - intros t p Hp. cbn [binit_cfg Conc.threads] in Hp. rewrite nth_error_map in Hp.
+    destruct (nth_error (number O ths) t) as [x|] eqn:E; [|discriminate]. inversion Hp; subst p.
+    apply nth_error_number in E. cbn in E. rewrite E. unfold view12, view, viewE. cbn. apply safe12_thread.
+Qed.
+
+(** ** theorems for every schedule: general_buffered with the two flips of the real code *)
+Theorem gpb_dispose_safe_all sfuel rf cap cnt ths c :
+  Conc.reach (binit_cfg 2 sfuel rf cap cnt ths) c -> dispose_safe (Conc.trace c).
+Proof.
+  intros Hr. destruct (Conc.reach_Inv (binit12_ok sfuel rf cap cnt ths) Hr) as (a & (_ & _ & _ & I4) & _). apply (DS _ _ I4).
+Qed.
+
+Theorem gpb_synchronize_waits_all sfuel rf cap cnt ths c :
+  Conc.reach (binit_cfg 2 sfuel rf cap cnt ths) c -> sync_waits (Conc.trace c).
+Proof.
+  intros Hr. destruct (Conc.reach_Inv (binit12_ok sfuel rf cap cnt ths) Hr) as (a & (_ & _ & _ & I4) & _). apply (SW _ _ I4).
+Qed.
